@@ -231,8 +231,8 @@ package knx
 //@   ensures [released] gcount("ndial") == old(gcount("ndial")) + 1 && gcount("ndialfail") == old(gcount("ndialfail")) ==> gcount("nsockclose") == old(gcount("nsockclose")) + 1
 //@   ensures [one.request] gcount("nsocksend") <= old(gcount("nsocksend")) + 1
 //@   ensures [timeout] gcount("nafter") > old(gcount("nafter")) ==> gcount("nafter") == old(gcount("nafter")) + 1 && gval("lastafter.d") == int64(searchTimeout)
-//@   ensures [nil.only.on.timeout] res == nil && err == nil ==> gcount("nafter") == old(gcount("nafter")) + 1 && nrecv(gval("lastafter.ch")) + nrecvc(gval("lastafter.ch")) >= 1
-//@   loop 0 invariant nrecv(gval("lastafter.ch")) == 0 && nrecvc(gval("lastafter.ch")) == 0
+//@   ensures [nil.only.on.timeout] res == nil && err == nil ==> gcount("nafter") == old(gcount("nafter")) + 1 && nrecv(gval("lastafter.d#ch")) + nrecvc(gval("lastafter.d#ch")) >= 1
+//@   loop 0 invariant nrecv(gval("lastafter.d#ch")) == 0 && nrecvc(gval("lastafter.d#ch")) == 0
 //@   loop 0 invariant gcount("nsockclose") == old(gcount("nsockclose")) && gcount("nsocksend") == old(gcount("nsocksend")) + 1 && gcount("nafter") == old(gcount("nafter")) + 1 && gval("lastafter.d") == int64(searchTimeout) && gcount("ndial") == old(gcount("ndial")) + 1 && gcount("ndialfail") == old(gcount("ndialfail"))
 //@   loop 0 assigns nothing
 //@   loop 0 ghost nrecv lastrecv
@@ -244,8 +244,8 @@ package knx
 //@   ensures [released] gcount("ndial") == old(gcount("ndial")) + 1 && gcount("ndialfail") == old(gcount("ndialfail")) ==> gcount("nsockclose") == old(gcount("nsockclose")) + 1
 //@   ensures [one.request] gcount("nsocksend") <= old(gcount("nsocksend")) + 1
 //@   ensures [timeout] gcount("nafter") > old(gcount("nafter")) ==> gcount("nafter") == old(gcount("nafter")) + 1 && gval("lastafter.d") == int64(searchTimeout)
-//@   ensures [returns.on.timeout] err == nil ==> gcount("nafter") == old(gcount("nafter")) + 1 && nrecv(gval("lastafter.ch")) + nrecvc(gval("lastafter.ch")) >= 1
-//@   loop 0 invariant nrecv(gval("lastafter.ch")) == 0 && nrecvc(gval("lastafter.ch")) == 0
+//@   ensures [returns.on.timeout] err == nil ==> gcount("nafter") == old(gcount("nafter")) + 1 && nrecv(gval("lastafter.d#ch")) + nrecvc(gval("lastafter.d#ch")) >= 1
+//@   loop 0 invariant nrecv(gval("lastafter.d#ch")) == 0 && nrecvc(gval("lastafter.d#ch")) == 0
 //@   loop 0 invariant gcount("nsockclose") == old(gcount("nsockclose")) && gcount("nsocksend") == old(gcount("nsocksend")) + 1 && gcount("nafter") == old(gcount("nafter")) + 1 && gval("lastafter.d") == int64(searchTimeout) && gcount("ndial") == old(gcount("ndial")) + 1 && gcount("ndialfail") == old(gcount("ndialfail"))
 //@   loop 0 step [collect] len(results) == prev(len(results)) + (nrecv(socket.Inbound()) > prev(nrecv(socket.Inbound())) && typeis(lastrecv(socket.Inbound()), *knxnet.SearchRes) ? 1 : 0)
 //@   loop 0 step [appended] len(results) > prev(len(results)) ==> results[len(results)-1] == lastrecv(socket.Inbound()).(*knxnet.SearchRes)
